@@ -242,10 +242,10 @@ def build(tier, seed):
     cases, hist, lin = [], [], []
     max_ids = 2 if tier == 'quick' else 3
     for k in inners:
-        for d in (1, 2):
+        for d in (1, 2) if tier == 'quick' else (1, 2, 3):
             inner = popbuild.elem(k, d)
             ppd = rp.per_dim(inner)
-            for n_cov in (1, 2):
+            for n_cov in (1, 2) if tier == 'quick' or d == 3 else (1, 2, 3):
                 for form, sel in selections(ppd, d):
                     if tier == 'quick' and d == 2 and n_cov == 2 and form == 'dup':
                         continue
